@@ -185,6 +185,10 @@ class Twin:
         import subprocess
         from .world import BIN, REAL_GIT
         res = []
+        # how much does the command print? Only an output several times the size of a pipe buffer makes the writer block for sure
+        # before the reader closes; a borderline size makes the outcome a race between writer and reader in either world
+        full = subprocess.run([REAL_GIT] + list(args), cwd=self.B.repo, env=self.B.env({}), stdout=subprocess.PIPE, stderr=subprocess.DEVNULL, stdin=subprocess.DEVNULL)
+        big_enough = len(full.stdout) >= 4 * 65536
         for w, argv0, extra in ((self.A, [BIN], {"GIT_AI": "git"}), (self.B, [REAL_GIT], {})):
             w.tick()
             e = w.env(extra)
@@ -205,7 +209,9 @@ class Twin:
         d = []
         if -999 in res:
             return res, d
-        if res[1] >= 0 and res[0] in (res[1], -13):
+        if not big_enough:
+            self.stats["early_close_output_too_small_to_judge"] = self.stats.get("early_close_output_too_small_to_judge", 0) + 1
+        elif res[1] >= 0 and res[0] in (res[1], -13):
             # plain git finished before the reader closed (its output fitted the pipe buffer): the early close was not provoked in the
             # reference world, nothing to compare beyond the state
             self.stats["early_close_not_provoked"] = self.stats.get("early_close_not_provoked", 0) + 1
